@@ -50,6 +50,7 @@ type Case struct {
 	InMap   bool   `json:"in_map"`         // partial: block is in the deletion-mark map handed to the function; partial-wired: deletion-mark.json object present
 	UlidOld bool   `json:"ulid_old"`       // partial: ULID creation time 10 days in the past (else: now)
 	Hist    string `json:"hist,omitempty"` // history: operations on one long-lived rig, see histOps; Delay indexes histDelays
+	Abs     string `json:"abs,omitempty"`  // retention-abs | cleaner-abs | partial-abs: symbol of an absolute (extreme) instant, see extreme_test.go
 }
 
 // history alphabet (all on one block, one rig = one IgnoreDeletionMarkFilter + Syncer + BlocksCleaner for the whole history):
@@ -148,6 +149,9 @@ func gen(r *vlib.R) iter.Seq[Case] {
 		phases = []int{0, 1, 2, 3, 249, 250, 499, 500, 501, 750, 997, 998, 999}
 	}
 	return func(yield func(Case) bool) {
+		if !genExtreme(r, yield) {
+			return
+		}
 		for _, ph := range phases {
 			for cfg := range retCfgs {
 				if cfg >= quickRetCfgs && !r.Thorough() {
@@ -638,6 +642,8 @@ func evalCase(r *vlib.R, c Case) (herr error) {
 		if alive[focus] {
 			r.Outcome("history/focus-kept")
 		}
+	case "retention-abs", "cleaner-abs", "partial-abs":
+		must(evalExtreme(r, c, ctx, bkt, start))
 	default:
 		return fmt.Errorf("unknown part %q", c.Part)
 	}
@@ -657,9 +663,16 @@ func TestCheck(t *testing.T) {
 		"history: ONE long-lived IgnoreDeletionMarkFilter+Syncer+BlocksCleaner (wired as compact.go) and every canonical operation sequence of length <= 7 (thorough 9) over " +
 		"{M mark / rewrite the mark with deletion_time=now, U block.RemoveMark, S SyncMetas, C SyncMetas+DeleteMarkedBlocks, A advance delay/2+1s} starting with M and ending with C, " +
 		"x delete delay {2s, 48h, 0} (thorough: x marking phase {0,500} ms), next to a block marked once and a never-marked block; at every C the deletion-mark.json that is in the bucket at that moment decides. " +
+		"extreme instants (absolute, not near now): retention-abs = block MaxTime in {MaxInt64, -1, -1h, MaxInt64-retention{-1,0,+1,+1s}, -2 retention, MaxInt64-now(+1), MaxInt64/1000(+1), MaxInt64/1e6(+1,-retention,-retention+1), year 9999, " +
+		"now+1h, now+1, now, now-retention{+1,0,-1,-1s}, 1, 0, -1, year 1900, MinInt64/1e6(-1), MinInt64/1000, MinInt64+retention{+1,0,-1}, MinInt64+1, MinInt64} ms for a block of EVERY resolution (and of an unconfigured one) at once " +
+		"x retention {all on 1h/2h/3h, all off, 30d/120d/1y, 292y (max duration), only resolution r on, only resolution r off (r = raw, 5m, 1h)} x phase {0,999} ms (thorough 4 phases), through the real fetcher; " +
+		"cleaner-abs = hand-written deletion-mark.json with deletion_time in {MaxInt64-62135596800 (largest time.Time), MaxInt64/1000, MaxInt64/1e6, year 9999, MaxInt64/1e9(+1,-delay,-delay+1), now+1h, now+1, now, 1, 0, -1, year 1900, " +
+		"MinInt64/1e9(-1), MinInt64/1e6, MinInt64/1000, MinInt64+delay+1, MinInt64+1, MinInt64} s x delete delay {0, 2s, 48h, 292y}, plus two deletion_time values beyond the range of time.Time that are only observed; " +
+		"partial-abs = an object store reporting LastModified in {largest time.Time, year 9999, 2262+1s, now+1h, now+1ms, 1970, 1900, 1677-1s, year 1 +1ns, smallest time.Unix} for all objects / for one object next to objects 49h old / next to objects 1h old. " +
 		"non-trivial = distinct cases in which the real code marked / deleted / removed a block")
 	r.Assume("virtual clock of testing/synctest (time.Now, time.Since, the in-memory bucket's LastModified all follow it); " +
 		"a block's newest sample is MaxTime-1 ms (MaxTime is exclusive; this is what TSDB writes when a head is cut at its last sample); " +
+		"extreme instants: a deletion_time is asserted only if time.Unix can represent it (up to MaxInt64-62135596800 s, year 292277026596); the oracle computes ages with math/big; " +
 		"the age of a deletion mark is counted from the deletion_time it records (second resolution); " +
 		"history part: the cleaner always runs right after a SyncMetas of the same rig (BucketCompactor.Compact and tools bucket cleanup do exactly this), no bucket change between that sync and the cleaner run")
 	var rc Case
